@@ -8,6 +8,7 @@ from pyvc.api import *  # noqa: F403
 
 from contracts.common import RUST_MODELS, TASK_STUBS, PEER_OBJ, clean_dict  # noqa: F401
 from contracts.tunnel_common import *  # noqa: F403
+from contracts.tunnel_shared import *  # noqa: F403
 
 try:
     from ipv8.messaging.anonymization.community import TunnelCommunity  # noqa: F401
@@ -19,24 +20,6 @@ except ImportError:
 
 EXTERNAL_MODELS = {**RUST_MODELS, **TUNNEL_MODELS}
 TCLS = f"resolve_class('{TC}::TunnelCommunity')"
-
-
-def key(p):
-    return p.public_key.ec.bin
-
-
-EXITSOCK = ROUTING(f"{ES}::TunnelExitSocket", hop=HOP(), enabled=BOOL, enable=CALLABLE("enable", raises=()),
-                   sendto=CALLABLE("sendto", raises=("Exception",)))
-
-
-def COMMUNITY(**extra):
-    f = dict(logger=LOGGER(), _prefix=BYTES_FIXED(22),
-             circuits=DICTOBJ(INT, CIRCUIT("[hc1]"), where="v.circuit_id == k"),
-             relay_from_to=DICTOBJ(INT, RELAY(), where="True"),
-             exit_sockets=DICTOBJ(INT, EXITSOCK, where="v.circuit_id == k"),
-             settings=OBJ(f"{TC}::TunnelSettings", peer_flags=SET(INT), max_joined_circuits=INT))
-    f.update(extra)
-    return OBJ(f"{TC}::TunnelCommunity", **f)
 
 
 REMOVE_STUBS = {f"{TC}::TunnelCommunity.remove_relay": {"event": "remove_relay", "note": "@task: scheduled removal (own contract in C09)"},
@@ -68,58 +51,8 @@ contract(f"{TC}::TunnelCommunity.on_destroy", "on_destroy.only-adjacent-node",
                  "len(trace()) == 0"],
          note="an entry is torn down by a destroy only if the (signed) sender is the adjacent hop of exactly that entry")
 
-# ---------------------------------------------------------------------------------------------------------------------
-# create: an id already in use (as own circuit, relay or exit) is refused
-RCACHE = EFFECT("request_cache", has={"returns": BOOL}, add={}, get={"returns": ANY}, pop={"returns": ANY})
-contract(f"{TC}::TunnelCommunity.on_create", "on_create.refuses-id-in-use",
-         vars={"hc1": HOP(), "self": COMMUNITY(request_cache=RCACHE), "src": ADDRESS,
-               "payload": OBJ(f"{PL}::CreatePayload", circuit_id=RANGE(0, 2 ** 32 - 1), identifier=INT, node_public_key=BYTES, key=BYTES),
-               "H": EXPR(f"undecorated({TCLS}, 'on_create')")},
-         call="run_coro(H(self, src, payload, None))", raises=[],
-         stubs={f"{TC}::TunnelCommunity.join_circuit": {"event": "join_circuit", "note": "own contract below"}},
-         on_effect={"join_circuit": [
-             "payload.circuit_id not in self.exit_sockets", "payload.circuit_id not in self.relay_from_to",
-             "payload.circuit_id not in self.circuits",
-             "len(self.relay_from_to) + len(self.exit_sockets) < self.settings.max_joined_circuits",     # C09: join limit
-             "len(calls('request_cache.has')) == 1"]},
-         ensures=["len(calls('join_circuit')) <= 1"], covers=["len(calls('join_circuit')) == 1"],
-         note="a request to open a circuit under an id that is already in use is refused rather than replacing the entry; "
-              "and none is accepted at the joined-circuit limit")
-
-# ---------------------------------------------------------------------------------------------------------------------
-# data: delivery only for an own circuit, from its first hop, labelled with that circuit; everything else exits or is dropped
-DATAP = OBJ(f"{PL}::DataPayload", circuit_id=INT, dest_address=ADDRESS, org_address=ADDRESS, data=BYTES)
-UNPACK_STUB = {"ipv8/messaging/serialization.py::Serializer.unpack_serializable": {"returns": "(PAYLOAD, 0)",
-                                                                                   "note": "decoding of DataPayload is C02/C03's business"}}
-TEP = OBJ(f"{EP}::TunnelEndpoint", notify_listeners=CALLABLE("notify_listeners", raises=()))
-contract(f"{TC}::TunnelCommunity.on_data", "on_data.delivery-and-exit-guards",
-         vars={"hc1": HOP(), "PAYLOAD": DATAP, "self": COMMUNITY(serializer=EXPR("default_serializer"), endpoint=ONEOF(TEP, EFFECT("plain_endpoint")),
-                                                              on_raw_data=CALLABLE("on_raw_data", raises=()),
-                                                              on_packet_from_circuit=CALLABLE("on_packet_from_circuit", raises=()),
-                                                              exit_data=CALLABLE("exit_data", raises=())),
-               "sock": ADDRESS, "data": BYTES},
-         call="self.on_data(sock, data, None)", raises=[], stubs=UNPACK_STUB,
-         on_effect={
-             "on_packet_from_circuit": ["own_and_adjacent(self, PAYLOAD, sock)", "args[0] == PAYLOAD.org_address and args[1] == PAYLOAD.data"
-                                        " and args[2] == PAYLOAD.circuit_id", "PAYLOAD.data[:22] == self._prefix"],
-             "notify_listeners": ["own_and_adjacent(self, PAYLOAD, sock)", "args[0] == (PAYLOAD.org_address, PAYLOAD.data)",
-                                  "ev.kwargs['from_tunnel'] == True"],
-             "on_raw_data": ["own_and_adjacent(self, PAYLOAD, sock)", "args[0] is self.circuits[PAYLOAD.circuit_id]",
-                             "args[1] == PAYLOAD.org_address and args[2] == PAYLOAD.data"],
-             "exit_data": ["not own_and_adjacent(self, PAYLOAD, sock)", "PAYLOAD.dest_address != ('0.0.0.0', 0)",
-                           "args == (PAYLOAD.circuit_id, sock, PAYLOAD.dest_address, PAYLOAD.data)"]},
-         ensures=["len(trace()) <= 2"],
-         covers=["len(calls('exit_data')) == 1", "len(calls('on_packet_from_circuit')) == 1", "len(calls('on_raw_data')) == 1"],
-         note="replies are delivered only for a circuit we own, only from that circuit's first hop and labelled with it; "
-              "nothing is emitted towards 0.0.0.0:0")
-
-
-def own_and_adjacent(self, p, sock):
-    if p.circuit_id in self.circuits:
-        c = self.circuits[p.circuit_id]
-        return bool(p.org_address) and sock == c._hops[0].peer._address
-    return False
-
+# create / data: id-in-use refusal, join limit, delivery and exit guards (shared with C04 and C08)
+on_create_and_on_data_contracts()
 
 # exit: the outside socket is opened only by data from the previous hop's IP (shared with C06)
 exit_data_contract()
